@@ -123,6 +123,30 @@ def scenario(nodes, root_nonmodrs, fallback, path_sub, decoys, tweak):
             del b.files[p]
     if tweak == "skipdecl" and items:
         items[0]["skip"] = True
+    if tweak == "skipdecl_deep":
+        # a skipped declaration in a file that is NOT the root
+        for (p, _, _) in b.placed:
+            its = b.files.get(p, {}).get("items") or []
+            if its:
+                its[0]["skip"] = True
+                break
+    if tweak == "skipdecl_nested":
+        # a skipped declaration inside an inline module (of any file)
+        def first_nested(its):
+            for it in its:
+                if it["k"] == "inline" and it["items"]:
+                    it["items"][0]["skip"] = True
+                    return True
+                if it["k"] == "inline" and first_nested(it["items"]):
+                    return True
+            return False
+        for pth in sorted(b.files):
+            if first_nested(b.files[pth]["items"]):
+                break
+    if tweak == "cfgif_skip" and items:
+        first = items.pop(0)
+        first["skip"] = True
+        items.insert(0, {"k": "cfgif", "name": "", "rel": [], "items": [first], "skip": False})
     if tweak == "innerskip" and b.placed:
         b.files[b.placed[0][0]]["skip"] = True
     if tweak == "cfgif" and items:
@@ -156,7 +180,8 @@ def universe():
             continue
         for rn, fb, ps, dc in itertools.product([False, True], repeat=4):
             for tw in ("none", "ambiguous", "missing", "skipdecl", "innerskip", "cfgif",
-                       "emptydir", "skip_children", "ignore", "generated"):
+                       "emptydir", "skip_children", "ignore", "generated", "skipdecl_deep",
+                       "skipdecl_nested", "cfgif_skip"):
                 if tw != "none" and (ps or fb) and tw not in ("emptydir",):
                     continue
                 if tw in ("skip_children", "ignore", "generated") and dc:
@@ -253,6 +278,8 @@ def run(tier, seed, replay=None):
     if tier == "quick":
         core_s = [s for s in uni if count(s["meta"]["tree"]) <= 2 and s["meta"]["decoys"]
                   and s["meta"]["tweak"] in ("none", "emptydir")][:140]
+        core_s += [s for s in uni if s["meta"]["tweak"] in ("skipdecl_deep", "skipdecl_nested",
+                                                             "cfgif_skip")][::6]
         rest = [s for s in uni if s not in core_s]
         rng.shuffle(rest)
         sel = core_s + rest[:360]
